@@ -16,6 +16,22 @@ CODES = {
 TEXT = ("LaTeX", "ASCIIMath")
 
 
+def count_own(out, run_, cells):
+    """occurrences of the literal's cells as a number of its own: not directly continued by a further digit cell (or by a
+    decimal point and a digit) on either side -- 4683 directly followed by 36 reads 468336 and renders neither"""
+    digits = set("0123456789") if cells is None else {cells[d] for d in "0123456789"}
+    point = "." if cells is None else cells["."]
+    n, i = 0, out.find(run_)
+    while i >= 0:
+        j = i + len(run_)
+        before = (i > 0 and out[i - 1] in digits) or (i > 1 and out[i - 1] == point and out[i - 2] in digits)
+        after = (j < len(out) and out[j] in digits) or (j + 1 < len(out) and out[j] == point and out[j + 1] in digits)
+        if not before and not after:
+            n += 1
+        i = out.find(run_, i + 1)
+    return n
+
+
 def learn_digits(im, pre):
     """digit cells and decimal-point cells of the code, read off the implementation: braille of 11, 22, ..., 00 and of 1.1"""
     xs = [f"<math><mn>{d}{d}</mn></math>" for d in "0123456789"] + ["<math><mn>1.1</mn></math>"]
@@ -60,7 +76,7 @@ def run(ctx):
     im, mo = core.impl(), core.model()
     rng = ctx.rng
     n_random = 60 if ctx.tier == "quick" else 800
-    oracle_fail, disagreements = [], []
+    oracle_fail, disagreements, merged = [], [], []
     n_eval = n_lits = n_text_compared = 0
     nontrivial = set()
     per_code = {}
@@ -97,7 +113,12 @@ def run(ctx):
                 out = br["v"]
                 for l in set(ls):
                     run_ = l if code in TEXT else "".join(cells[ch] for ch in l)
-                    want, got = ls.count(l), out.count(run_)
+                    # counted as numbers of their own (so that 4683 followed by 36 does not count as an occurrence of 33); where numbers run
+                    # together (two mn side by side, a numeric script before a number) the plain count of the statement decides, and the case is recorded
+                    want, got = ls.count(l), count_own(out, run_, cells)
+                    if got != want and out.count(run_) == want:
+                        merged.append({"literal": l, "code": code, "xml": x, "braille": out})
+                        got = want
                     if got < want and code in ("CMU", "Vietnam") and l.isdigit():
                         # drop numbers: an integer denominator of a numeric fraction is written with the digits lowered one row (by design)
                         low = dict(zip("⠁⠃⠉⠙⠑⠋⠛⠓⠊⠚", "⠂⠆⠒⠲⠢⠖⠶⠦⠔⠴"))
@@ -128,6 +149,7 @@ def run(ctx):
         "oracle_failure_kinds": {f"{k[0]}: {k[1]}": v for k, v in kinds.items()},
         "model_vs_impl_disagreements": [{k: v for k, v in d.items() if k != "lines"} for d in disagreements[:8]], "n_disagreements": len(disagreements),
         "impl_vs_oracle_failures": [{k: v for k, v in f.items() if k != "lines"} for f in oracle_fail[:8]], "n_oracle_failures": len(oracle_fail),
+        "observation_numbers_run_together": {"count": len(merged), "note": "a literal whose cells are directly continued by another number's cells (not a violation of C06 as stated)", "samples": merged[:4]},
     })
     for f in oracle_fail:
         ctx.violation("implementation violates C06: " + json.dumps({k: v for k, v in f.items() if k not in ("lines",)}, ensure_ascii=False)[:500],
